@@ -1403,3 +1403,40 @@ func TestD40_RedefinedFunctionKeepsTheArgumentGivenToRedefine(t *testing.T) {
 		}
 	}
 }
+
+// D43 (C02, C11): a run-once converter that has already run answered from its
+// memo even when one of its arguments could not be derived in the current
+// call (with NONE of them available the call was refused, so this was not
+// "memoized whatever the arguments"): callDirect returned the cached result
+// before its missing-argument guard.
+type d43X int
+type d43Y int
+type d43Z int
+
+func TestD43_MemoizedRunOnceConverterStillNeedsItsArguments(t *testing.T) {
+	execs := 0
+	conv := argmapper.MustFunc(argmapper.NewFunc(func(x d43X, y d43Y) d43Z { execs++; return d43Z(int(x)*10 + int(y)) }, argmapper.FuncOnce()))
+	ran := 0
+	target := argmapper.MustFunc(argmapper.NewFunc(func(z d43Z) int { ran++; return int(z) }))
+	res, p := call(target, argmapper.Typed(d43X(1)), argmapper.Typed(d43Y(2)), argmapper.ConverterFunc(conv))
+	if p != nil || res.Err() != nil || res.Out(0).(int) != 12 {
+		t.Fatalf("first call: %v %v", p, res.Err())
+	}
+	// complete arguments again (other values): the memoized result is used
+	res, p = call(target, argmapper.Typed(d43X(5)), argmapper.Typed(d43Y(6)), argmapper.ConverterFunc(conv))
+	if p != nil || res.Err() != nil || res.Out(0).(int) != 12 || execs != 1 {
+		t.Fatalf("second call: %v %v execs=%d", p, res.Err(), execs)
+	}
+	// Y is missing: the call must be refused, the target must not run
+	before := ran
+	res, p = call(target, argmapper.Typed(d43X(1)), argmapper.ConverterFunc(conv))
+	if p != nil {
+		t.Fatalf("panic: %v", p)
+	}
+	if res.Err() == nil {
+		t.Fatalf("a call whose converter lacks an argument succeeded from the converter's memo (got %v)", res.Out(0))
+	}
+	if ran != before {
+		t.Fatalf("the target was executed")
+	}
+}
